@@ -15,7 +15,6 @@
 package p9
 
 import (
-	"errors"
 	"fmt"
 	"io"
 	"runtime"
@@ -141,7 +140,10 @@ func (c *clientFile) xattrWalkRead(attr string) ([]byte, error) {
 	}
 	buf := make([]byte, rxattrwalk.Size)
 	n, err := xattrFile.ReadAt(buf, 0)
-	if err != nil && !errors.Is(err, io.EOF) {
+	// Only the end-of-file indication of ReadAt itself is benign here. A
+	// broken connection must not pass for it (ConnError matches whatever
+	// error it wraps, io.EOF included, under errors.Is).
+	if err != nil && err != io.EOF {
 		return nil, err
 	}
 	return buf[:n], nil
